@@ -191,6 +191,119 @@ MULTI = [
         let flushed = self.emitter.blocking_flush(timeout);
         flushed
     }""")]),
+ # ---- OTLP routing, traceparent sampling, term: equivalent spellings --------------------------------------------------
+ ("B.otlp_emit_match_arms", ["C14", "C12", "C09"], "emitter/otlp/src/client.rs", [
+   ("""        if let Some((ref encoder, ref sender)) = self.otlp_traces {
+            if let Some(event) = encoder.encode_event(&evt) {
+                return sender.send(ChannelItem {
+                    max_request_size_bytes: DEFAULT_MAX_REQUEST_SIZE_BYTES,
+                    event,
+                });
+            }
+        }
+""", """        if let Some((ref encoder, ref sender)) = self.otlp_traces {
+            match encoder.encode_event(&evt) {
+                Some(event) => {
+                    let item = ChannelItem {
+                        max_request_size_bytes: DEFAULT_MAX_REQUEST_SIZE_BYTES,
+                        event,
+                    };
+                    sender.send(item);
+                    return;
+                }
+                None => {}
+            }
+        }
+""")]),
+ ("B.otlp_flush_elapsed_local", ["C07", "C12", "C08"], "emitter/otlp/src/client.rs", [
+   ("""        if let Some((_, ref sender)) = self.otlp_traces {
+            if !emit_batcher::blocking_flush(sender, timeout.saturating_sub(start.elapsed())) {
+                return false;
+            }
+        }
+""", """        if let Some((_, ref sender)) = self.otlp_traces {
+            let remaining = timeout.saturating_sub(start.elapsed());
+            let flushed = emit_batcher::blocking_flush(sender, remaining);
+            if !flushed {
+                return false;
+            }
+        }
+""")]),
+ ("B.tp_sampler_nested_if", ["C18"], "traceparent/src/lib.rs", [
+   ("""            if trace_flags.is_sampled() && sampler(&SpanCtxt::new(trace_id, None, Some(span_id))) {
+                // Sampled
+                trace_flags & TraceFlags::SAMPLED
+            } else {
+                // Unsampled
+                trace_flags & TraceFlags::EMPTY
+            }""", """            let may_sample = trace_flags.is_sampled();
+            if may_sample {
+                let candidate = SpanCtxt::new(trace_id, None, Some(span_id));
+                if sampler(&candidate) {
+                    trace_flags & TraceFlags::SAMPLED
+                } else {
+                    trace_flags & TraceFlags::EMPTY
+                }
+            } else {
+                trace_flags & TraceFlags::EMPTY
+            }""")]),
+ ("B.tp_is_sampled_ne_zero", ["C18"], "traceparent/src/lib.rs", [
+   ("        self.0 & Self::SAMPLED.0 == 1", "        (self.0 & Self::SAMPLED.0) != 0")]),
+ ("B.tp_exclude_props_if_chain", ["C18", "C02"], "traceparent/src/lib.rs", [
+   ("""        if !self.check {
+            return self.inner.for_each(for_each);
+        }
+
+        self.inner.for_each(|key, value| match key.get() {""", """        if self.check == false {
+            return self.inner.for_each(for_each);
+        }
+
+        self.inner.for_each(|key, value| match key.get() {""")]),
+ # ---- core combinators and setup: equivalent spellings ------------------------------------------------------------------
+ ("B.and_props_for_each_match", ["C02", "C01"], "core/src/props.rs", [
+   ("""        self.left().for_each(&mut for_each)?;
+        self.right().for_each(for_each)""", """        match self.left().for_each(&mut for_each) {
+            ControlFlow::Continue(()) => self.right().for_each(for_each),
+            ControlFlow::Break(()) => ControlFlow::Break(()),
+        }""")]),
+ ("B.and_props_get_match", ["C02"], "core/src/props.rs", [
+   ("""        self.left().get(key).or_else(|| self.right().get(key))""", """        match self.left().get(key) {
+            Some(value) => Some(value),
+            None => self.right().get(key),
+        }""")]),
+ ("B.and_emitter_flush_inline", ["C01", "C07"], "core/src/emitter.rs", [
+   ("""        let lhs = self.left().blocking_flush(timeout);
+        let rhs = self.right().blocking_flush(timeout);
+
+        lhs && rhs""", """        let left_flushed = self.left().blocking_flush(timeout);
+        let right_flushed = self.right().blocking_flush(timeout);
+
+        if !left_flushed {
+            return false;
+        }
+
+        right_flushed""")]),
+ ("B.try_init_slot_named_runtime", ["C20"], "src/setup.rs", [
+   ("""@first:        let ambient = slot.init(
+            Runtime::new()
+                .with_emitter(self.emitter)
+                .with_filter(self.filter)
+                .with_ctxt(self.ctxt)
+                .with_clock(self.clock)
+                .with_rng(self.rng),
+        )?;
+""", """        let runtime = Runtime::new()
+            .with_rng(self.rng)
+            .with_clock(self.clock)
+            .with_ctxt(self.ctxt)
+            .with_filter(self.filter)
+            .with_emitter(self.emitter);
+
+        let ambient = match slot.init(runtime) {
+            Some(ambient) => ambient,
+            None => return None,
+        };
+""")]),
 ]
 
 RENAMES = [
